@@ -232,16 +232,25 @@ mod sql {
         r.phones.iter().all(|p| (0..=65535).contains(p)) && (0..=u32::MAX as i64).contains(&r.user) && (0..=u32::MAX as i64).contains(&r.orig) && r.time >= 0
     }
 
-    /// the legacy record a raw row stands for: its non-zero phones, phrase, user frequency, time
+    /// a phone the migration keeps: the code of a non-empty syllable (bit layout of src/zhuyin/syllable.rs, checked here
+    /// independently of `Syllable::try_from`: marker bit clear, initial <= 21, medial <= 3, rime <= 13, tone <= 5, not zero).
+    /// Since the repair of C13's F47 every other value — the zero padding, a non-code such as 0x6a07, the empty pattern
+    /// 0x8000 — is skipped.
+    fn kept_phone(p: i64) -> bool {
+        (1..0x8000).contains(&p) && (p >> 9) & 63 <= 21 && (p >> 7) & 3 <= 3 && (p >> 3) & 15 <= 13 && p & 7 <= 5
+    }
+    const NON_CODES: &[i64] = &[27143, 33288, 526, 0xffff, 0x8000, 0x2c00, 0x0070, 0x8001];
+
+    /// the legacy record a raw row stands for: its syllable phones, phrase, user frequency, time
     fn record_of(r: &V1) -> E {
-        let syls: Vec<u16> = r.phones.iter().filter(|p| **p != 0).map(|p| *p as u16).collect();
+        let syls: Vec<u16> = r.phones.iter().filter(|p| kept_phone(**p)).map(|p| *p as u16).collect();
         (syls, r.phrase.clone().into_bytes(), r.user.max(r.orig) as u32, r.time as u64)
     }
 
     /// zero-terminated phones, user frequency at least the original one: what the C library wrote
     fn well_formed(r: &V1) -> bool {
         let k = r.phones.iter().take_while(|p| **p != 0).count();
-        in_range(r) && k >= 1 && r.phones[k..].iter().all(|p| *p == 0) && r.user >= r.orig
+        in_range(r) && k >= 1 && r.phones[..k].iter().all(|p| kept_phone(*p)) && r.phones[k..].iter().all(|p| *p == 0) && r.user >= r.orig
     }
 
     fn gen_v1_row(rng: &mut Rng, prev: &[V1]) -> V1 {
@@ -321,6 +330,11 @@ mod sql {
                 phones[at] = 0;
             }
         }
+        // a phone that is not a syllable code (or is the empty syllable): skipped like a hole (C13 F47)
+        if rng.chance(1, 16) {
+            let at = rng.below(11) as usize;
+            phones[at] = *rng.pick(NON_CODES);
+        }
         V1 { time, user, max: user.max(orig) + rng.below(3) as i64, orig, length, phones, phrase }
     }
 
@@ -390,6 +404,9 @@ mod sql {
             );
             if !well_formed(r) {
                 bump("sqlite_v1_rows_not_well_formed", 1);
+            }
+            if r.phones.iter().any(|p| *p != 0 && (0..=65535).contains(p) && !kept_phone(*p)) {
+                bump("sqlite_v1_rows_with_a_phone_that_is_no_syllable", 1);
             }
             if r.user == 0 || r.orig == 0 {
                 bump("sqlite_v1_rows_zero_freq", 1);
